@@ -1,6 +1,7 @@
 import CalVerif.Lemmas.OvbaLoops
 import CalVerif.Lemmas.OvbaDir
 import CalVerif.Lemmas.OvbaFuel
+import CalVerif.Lemmas.OvbaNoPanic
 /-! # C18 — VBA modules are extracted byte-exact from the compressed project
 
     Theorems about `Ovba.decompress` (model of `src/cfb.rs decompress_stream`, after the D16 fix) against the
@@ -17,24 +18,16 @@ open Ovba
 
 /-- `while len > offset { append the last `offset` bytes; len -= offset }` + final partial block, on the (reversed)
     output buffer, equals copying `len` bytes one at a time from `offset` bytes back (MS-OVBA Byte Copy), for every
-    offset the 4096-byte scratch buffer can hold and that does not reach before the buffer start. Overlapping
+    offset that does not reach before the buffer start (the code guards that case with an `Err`). Overlapping
     copies (`len > off`, run-length) included. -/
-theorem copy_loop_correct (off len : Nat) (out : Bytes) (h1 : 1 ≤ off) (h2 : off ≤ 4096) (h3 : off ≤ out.length) :
+theorem copy_loop_correct (off len : Nat) (out : Bytes) (h1 : 1 ≤ off) (h3 : off ≤ out.length) :
     ∃ out', copyLoop off (len + 1) len out out.length = .ok (out', out.length + len) ∧
       out'.reverse = copySpec off len out.reverse ∧ out'.length = out.length + len := by
   refine ⟨copyRev off len out, ?_, copyRev_reverse off len out h1 h3, copyRev_length off len out⟩
-  apply copyLoop_eq off h1 h2 _ _ _ _ rfl h3
+  apply copyLoop_eq off h1 _ _ _ _ h3
   · calc len ≤ (len + 1) * 1 := by omega
       _ ≤ (len + 1) * off := Nat.mul_le_mul_left _ h1
   · omega
-
-/-- conversely the copy panics when the offset reaches before the start of the output (D34 panic site) -/
-theorem copy_loop_underflow (off len : Nat) (out : Bytes) (h2 : off ≤ 4096) (h3 : out.length < off) (h4 : len ≤ 4096) :
-    ∃ m, copyLoop off (len + 1) len out out.length = .panic m := by
-  simp only [copyLoop]
-  split
-  · rw [if_neg (by omega)]; exact ⟨_, rfl⟩
-  · rw [if_neg (by omega)]; exact ⟨_, rfl⟩
 
 /-! ## the position-dependent bit split -/
 
@@ -215,7 +208,28 @@ example : (serialize sample).length = 30 := by decide
     panics (termination of the three nested loops of `decompress_stream`; a C06 obligation). -/
 theorem decompress_never_out_of_fuel (s : Bytes) : decompress s ≠ .outOfFuel := decompress_fuel s
 
-/-! ## ledger D16: the loop before the fix -/
+/-- **C06 for `decompress_stream`** (after the D34 robustness fix, /repo 3510bc7): no byte string makes the model
+    panic — empty input, truncated headers and tokens, wrong chunk signatures, short raw chunks and copy offsets
+    reaching before the start of the output are all `Err`. -/
+theorem decompress_no_panic (s : Bytes) (m : String) : decompress s ≠ .panic m := (decompress_np s).ne m
+
+/-- every input is answered by bytes or by an error -/
+theorem decompress_total (s : Bytes) : (∃ b, decompress s = .ok b) ∨ (∃ e, decompress s = .err e) := by
+  cases h : decompress s with
+  | ok b => exact .inl ⟨b, rfl⟩
+  | err e => exact .inr ⟨e, rfl⟩
+  | panic m => exact absurd h (decompress_no_panic s m)
+  | outOfFuel => exact absurd h (decompress_never_out_of_fuel s)
+
+/-- **C06 for the `dir` walk** (after /repo a92e839): `read_dir_information` + `Reference::from_stream` +
+    `read_modules` never panic, whatever the bytes of the decompressed `dir` stream -/
+theorem dirWalk_no_panic (s : Bytes) (m : String) : dirWalk s ≠ .panic m := (dirWalk_np s).ne m
+
+/-- and neither does `VbaProject::from_cfb` (model), whatever the streams of the compound file contain -/
+theorem project_no_panic (d : Option Bytes) (lookup : Bytes → Option Bytes) (m : String) :
+    project d lookup ≠ .panic m := (project_np d lookup).ne m
+
+/-! ## ledger D16: the loop before the fix (history) -/
 
 /-- the `'chunk` loop as it was before the D16 fix: `if i >= s.len() { break; }` only -/
 def chunkLoopPre (size start : Nat) : Nat → St → Res St
@@ -236,13 +250,13 @@ def mainLoopPre : Nat → Bytes → Bytes → Nat → Res Bytes
   | fuel + 1, rest, out, olen =>
     match rest with
     | [] => .ok out
-    | [_] => .panic "decompress_stream: read_u16 (chunk header)"
+    | [_] => .err "invalid"
     | lo :: hi :: r =>
       let header := u16le lo hi
       let size := header &&& 0x0FFF
-      if (header &&& 0x7000) >>> 12 ≠ 3 then .panic "decompress_stream: assert_eq!(chunk_signature, 0b011)"
+      if (header &&& 0x7000) >>> 12 ≠ 3 then .err "invalid"
       else if (header &&& 0x8000) >>> 15 = 0 then
-        if r.length < 4096 then .panic "decompress_stream: s[i..i + 4096]"
+        if r.length < 4096 then .err "invalid"
         else mainLoopPre fuel (r.drop 4096) ((r.take 4096).reverse ++ out) (olen + 4096)
       else
         match chunkLoopPre size olen (r.length + 1) { rest := r, out := out, olen := olen, clen := 0 } with
@@ -255,11 +269,12 @@ def mainLoopPre : Nat → Bytes → Bytes → Nat → Res Bytes
 def d16Witness : List Chunk :=
   [.compressed [.lit 97, .lit 98, .lit 99, .lit 100, .lit 101, .lit 102, .lit 103, .lit 104], .compressed [.lit 120]]
 
-/-- D16, third case of DESIGN §4: on a decodable container whose non-final chunk ends on a flag-group boundary
-    the pre-fix loop takes the low byte of the next chunk header for a flag byte and then fails the chunk-signature
-    assertion, while the fixed loop (the model, by `decompress_correct_decodable`) returns the expansion. -/
-theorem d16_prefix_loop_panics :
-    mainLoopPre 20 (serialize d16Witness) [] 0 = .panic "decompress_stream: assert_eq!(chunk_signature, 0b011)" ∧
+/-- D16, third case of DESIGN §4 (kept as history): on a decodable container whose non-final chunk ends on a
+    flag-group boundary the loop as it was before the D16 fix takes the low byte of the next chunk header for a flag
+    byte and then fails the chunk-signature test (a panic at the time, an `Err` since the D34 fix), while the fixed
+    loop (the model, by `decompress_correct_decodable`) returns the expansion. -/
+theorem d16_prefix_loop_fails :
+    mainLoopPre 20 (serialize d16Witness) [] 0 = .err "invalid" ∧
     decompress (container d16Witness) = .ok (expand d16Witness) := by
   refine ⟨by decide, decompress_correct_decodable d16Witness (by unfold Decodable; decide)⟩
 
